@@ -3,6 +3,7 @@ import json
 import os
 import shutil
 import time
+import zlib
 
 import engine_check as ec
 import vcommon as vc
@@ -101,7 +102,7 @@ def sem_parts(prop_id, tier, families, configs=None, bounds=None, sample=None, s
         agg["mc_ok"] = agg["mc_ok"] and stats["mc_ok"]
         merged = merge_queries(scen, prop_id, fam)
         if sample and len(merged) > sample:
-            rnd = random.Random(seed * 1000003 + hash(fam) % 1000)
+            rnd = random.Random(seed * 1000003 + zlib.crc32(fam.encode()) % 1000)
             merged = rnd.sample(merged, sample)
             agg["exhaustive"] = False
         parts.append({"name": fam, "scenarios": merged, "configs": configs or [{"name": "default", "args": []}]})
@@ -339,7 +340,7 @@ def check_c06(prop_id, tier, seed):
 
 @prop("C07")
 def check_c07(prop_id, tier, seed):
-    return sem_variant_check(prop_id, tier, seed, ["F4", "F4S"], ["plain", "indexed"])
+    return sem_variant_check(prop_id, tier, seed, ["F4", "F4S", "F4M"], ["plain", "indexed"])
 
 
 @prop("C08")
@@ -649,11 +650,16 @@ def check_c26(prop_id, tier, seed):
 def check_c25(prop_id, tier, seed):
     t0 = time.time()
     depth = {"quick": 4, "thorough": 5}[tier]
-    scen, stats = vc.gen_scenarios(prop_id, "MC_Cache", "MC_Cache.cfg", ec.ENGINE_DEPS, consts={"MaxDepth": depth}, workers=1)
+    # Fill = 1: one reader; Fill = 2: two readers that missed at the same time both store their result
+    scen, stats = vc.gen_scenarios(prop_id, "MC_Cache", "MC_Cache.cfg", ec.ENGINE_DEPS, consts={"MaxDepth": depth, "Fill": 1}, workers=1)
+    scen2, st2 = vc.gen_scenarios(prop_id, "MC_Cache", "MC_Cache.cfg", ec.ENGINE_DEPS, consts={"MaxDepth": depth, "Fill": 2}, workers=1)
+    for k in ("states_generated", "distinct_states"):
+        stats[k] = stats.get(k, 0) + st2.get(k, 0)
     stats["exhaustive"] = True
     cfgs = [{"name": "default", "args": []}]
     wd = os.path.join(vc.RUN, "work_%s" % prop_id)
-    verdict, events, _ = ec.run_parts(prop_id, [{"name": "cache", "scenarios": scen, "configs": cfgs}], wd)
+    verdict, events, _ = ec.run_parts(prop_id, [{"name": "cache", "scenarios": scen, "configs": cfgs},
+                                                {"name": "cache2", "scenarios": [{"id": x["id"] + "-fill2", "steps": x["steps"]} for x in scen2], "configs": cfgs}], wd)
     hits = 0
     with open(events) as fh:
         for ln in fh:
